@@ -738,6 +738,13 @@ def c14(m, h, i, s):
                 m.bad(h, i, "paused_op", f"{verb} succeeded while the engine is paused")
         if paused and verb in ("liq", "payfunding") and s.ok:
             m.hit("paused-still-available:" + verb, h, i)
+        if paused and verb in ("liq", "payfunding") and not s.ok and i + 2 < len(h.steps):
+            # the harness retries a Liquidate / PayFunding refused under pause with the pause lifted
+            a, b_ = h.steps[i + 1], h.steps[i + 2]
+            if a.kind == "eng" and a.verb() == "setpause" and a.toks[4] == "0" and a.ok and b_.text == s.text:
+                m.hit("paused-refused-retried:" + verb + (":ok" if b_.ok else ":err"), h, i)
+                if b_.ok:
+                    m.bad(h, i, "paused_blocks_" + verb, f"{verb} is refused while the engine is paused and goes through once the pause is lifted")
         if closed and verb in ("open", "close", "liq", "withdraw", "payfunding"):
             m.hit("closed:" + verb, h, i)
             if s.ok:
